@@ -108,6 +108,8 @@ fn fmt_enc_err(e: &EncapError) -> &'static str {
         EncapError::ErrorInvalidLabel => "InvalidLabel",
         EncapError::ErrorNoExtensionFound => "NoExtensionFound",
         EncapError::ErrorFinalMandatoryExtensionHeader => "FinalMandatoryExtensionHeader",
+        #[allow(unreachable_patterns)]
+        _ => "Other",
     }
 }
 
@@ -572,6 +574,8 @@ impl Sess {
             DecapMemoryError::UndefinedId => "undefined".to_string(),
             DecapMemoryError::BufferTooSmall(s) => format!("toosmall:{}", self.id_of(s)),
             DecapMemoryError::MemoryCorrupted => "corrupted".to_string(),
+            #[allow(unreachable_patterns)]
+            other => format!("other:{:?}", other).replace(' ', "_"),
         }
     }
 
@@ -589,6 +593,8 @@ impl Sess {
             DecapError::ErrorLabelBroadcastSaved => "LabelBroadcastSaved".to_string(),
             DecapError::ErrorLabelReUseSaved => "LabelReUseSaved".to_string(),
             DecapError::ErrorUnkownMandatoryHeader => "UnkownMandatoryHeader".to_string(),
+            #[allow(unreachable_patterns)]
+            other => format!("Other:{:?}", other).replace(' ', "_"),
         }
     }
 
@@ -1138,6 +1144,8 @@ fn step_inner(s: &mut Sess, toks: &[&str]) -> Option<String> {
                 Ok(Err(GetLabelorFragIdError::ErrSizeBuffer)) => "err size | -".to_string(),
                 Ok(Err(GetLabelorFragIdError::ErrHeaderRead)) => "err header | -".to_string(),
                 Ok(Err(GetLabelorFragIdError::ErrorUnkownMandatoryHeader)) => "err mandatory | -".to_string(),
+                #[allow(unreachable_patterns)]
+                Ok(Err(other)) => format!("err other:{:?} | -", other).replace(' ', "_").replace("_|_-", " | -"),
                 Err(_) => {
                     s.halted = true;
                     "panic | -".to_string()
